@@ -168,11 +168,13 @@ func init() {
 		for _, f := range []func(*Ctx) []Obligation{rulesC11, rulesC12, rulesC13, rulesC14, rulesC16, rulesC17, rulesC20, rulesC06} {
 			obs = append(obs, f(cx)...)
 		}
+		obs = append(obs, rulesGlobalState(cx, "C01")...)
+		obs = append(obs, rulesChipState(cx, "C01")...)
 		return obs
 	},
-		Expl: "Structural necessary conditions of 'tampered or mismatched proofs are rejected': (own) both circuits call VerifierChip.Verify on every path with their own fields; Verify calls the PLONK check and FRI verification on every path with the derived challenges, HashNoPad(publicInputs), the proof's openings/opening proof and the caps in order; every input leaf of the proof, the verifier data and the public inputs (enumerated from the types) influences at least one must-executed constraint; (union) the obligations of C11 (binding and order of the transcript), C12, C13, C14, C16, C17, C20 and C06. Decides that every input is bound and every verification equation is emitted on every path for every element — not that the equations are the right polynomials.",
+		Expl: "Structural necessary conditions of 'tampered or mismatched proofs are rejected': (own) both circuits call VerifierChip.Verify on every path with their own fields; Verify calls the PLONK check and FRI verification on every path with the derived challenges, HashNoPad(publicInputs), the proof's openings/opening proof and the caps in order; every input leaf of the proof, the verifier data and the public inputs (enumerated from the types) influences at least one must-executed constraint; (union) the obligations of C11 (binding and order of the transcript), C12, C13, C14, C16, C17, C20 and C06; (state) no package-level or chip-level state survives from one circuit, proof or call to the next (tabled exceptions). Decides that every input is bound and every verification equation is emitted on every path for every element — not that the equations are the right polynomials.",
 		Rule: "own wiring/liveness obligations plus the union of the listed properties' obligations"})
-	registerProp(&propDef{ID: "C18", Rules: rulesC18, Floor: 200,
+	registerProp(&propDef{ID: "C18", Rules: withState("C18", rulesC18), Floor: 202,
 		Expl: "Regular-language analysis of the gate registry: the 14 patterns are read from the program (constant arguments of regexp.MustCompile stored under the keys of gateRegexHandlers), compiled with regexp/syntax and wrapped as 'contains a match' (the lookup is unanchored); by product/subset constructions against a reference grammar of plonky2's Debug-format identifiers it is decided that every supported identifier is matched by its own pattern and by no other (so the result is independent of Go's randomised map iteration), that identifiers of unimplemented gates (lookup, lookup-table, u32 arithmetic/add-many/subtraction/range-check, comparison, interleave gates, other extension degrees) match no pattern or are refused by the handler; plus: the no-match exit panics and every return is a handler result; each capture group flows through an error-checked strconv parse into the field of the same meaning (dependency analysis per constant map key); registry ↔ Gate implementations is a bijection; circuits with hiding are refused.",
 		Rule: "one obligation per (gate template × pattern), per unimplemented template, per capture group, per parse call, per registry entry"})
 	registerProp(&propDef{ID: "C19", Rules: rulesC19, Floor: 40,
@@ -181,32 +183,41 @@ func init() {
 	registerProp(&propDef{ID: "C02", Rules: rulesC02, Floor: 40,
 		Expl: "Partial: (W3) every constant width that reaches the n-bit range primitive through the static call graph is a multiple of the commit checker's base width, the only configuration-dependent width is 64 − ProofOfWorkBits and it is a positive multiple of 16 for every common_circuit_data.json in the repository (else commit-based builds panic in the deferred drain); (dispatch) C06's obligations — no backend skips or mis-selects checks, so the verdict cannot depend on the backend through a dropped constraint; (W2) honest fit by the magnitude analysis (abstract interpretation of the gadget layer over upper bounds, context-sensitive, constant-propagating loop counters): in every context reaching a reduction the value is below p·2^n for the quotient width in force, every operand reaching MulAdd / Inverse is canonical (the hints refuse larger ones), no intermediate value reaches the BN254 field, and upper-layer functions exchange canonical values only — for every configuration and proof shape, under the stated input assumption (proof data and constants canonical); (sponge) a partial last chunk keeps the previous lanes, as needed for the 97-input circuit. Acceptance of concrete proofs (the algebraic identities themselves) is not decided.",
 		Rule: "one obligation per width reaching the range primitive, per circuit description, per C06 rule, per reduction / hint-operand site (worst case over contexts), per package for the interface invariant"})
-	registerProp(&propDef{ID: "C10", Rules: func(cx *Ctx) []Obligation {
+	registerProp(&propDef{ID: "C10", Rules: withState("C10", func(cx *Ctx) []Obligation {
 		return append(append(rulesC10(cx), rulesMulAcc(cx, "C10", "poseidon")...), ruleNoEmptyLimb(cx)...)
-	}, Floor: 9,
+	}), Floor: 11,
 		Expl: "Narrow structural clauses only — the injectivity half of C10: in HashNoPad and HashOrNoop the limbs are packed by a loop accumulator acc' = acc + limb_k·base^k (recurrence extracted from the SSA phi; base a compile-time constant ≥ 2^64; exponent = the limb's own index; number of limbs per element bounded — by the slice bounds lo+c / min(_, lo+c) or by a dominating len(input) ≤ c — with base^T ≤ r), and ToVec splits the canonical bit decomposition (no explicit width) into consecutive disjoint chunks of ≤ 63 bits. Plus the MulAcc accumulator discipline (MA) at every MulAcc site of the poseidon package (BN254 permutation, packing): the accumulator is owned and dead after the call, so the computed hash does not depend on the R1CS builder re-using storage. Agreement of the BN254 Poseidon permutation, sponge and shortcut with the reference PoseidonBN128 for all inputs is numeric and not decided.",
 		Rule: "one obligation per packing accumulator, for the chunking, and per MulAcc site"})
-	registerProp(&propDef{ID: "C15", Rules: rulesC15, Floor: 8,
+	registerProp(&propDef{ID: "C15", Rules: withState("C15", rulesC15), Floor: 10,
 		Expl: "Narrow structural clauses only — the selector-filtering and position-wise-sum half of C15, decided on the SSA of plonk/gates: EvaluateGateConstraints calls evalFiltered once for every gate with the gate's own row, selectorIndices[i], groups[selectorIndices[i]] and NumSelectors(); the results are added position-wise into a zeroed vector of numGateConstraints that is returned; evalFiltered reads the selector constant before RemovePrefix, strips exactly numSelectors constants before the gate sees them, multiplies every returned constraint by the filter; computeFilter is ∏(i−s) over [start,end) skipping exactly i = row, times (UNUSED_SELECTOR−s) iff several selectors, UNUSED_SELECTOR = 2^32−1. Equality of each Gate.EvalUnfiltered with plonky2's gate polynomial for all wire values is numeric and NOT decided.",
 		Rule: "one obligation per structural clause of the filter/sum code"})
-	registerProp(&propDef{ID: "C20", Rules: rulesC20, Floor: 20,
+	registerProp(&propDef{ID: "C20", Rules: withState("C20", func(cx *Ctx) []Obligation {
+		obs := append(rulesC20(cx), ruleNoRecover(cx, "C20")...)
+		for _, o := range rulesC11(cx) {
+			if strings.HasPrefix(o.Key, "C11/O11.2/openings-content-order") || o.Key == "C11/O11.3/binds/observe:Openings" {
+				o.Key = "C20/bound/" + strings.TrimPrefix(o.Key, "C11/")
+				obs = append(obs, o)
+			}
+		}
+		return obs
+	}), Floor: 25,
 		Expl: "T3 guard table: 18 refusals reachable from VerifierChip.Verify keyed by the compared quantities (lengths of proof lists vs configuration values, normalised to 'continues iff X op Y'), each must execute on every path and for every element of the list it validates (full-range loops); plus the 16-public-inputs refusal of CircuitFixed.Define and the hiding refusal of ReadCommonCircuitData. Decides presence, operator and coverage of the guards; that a shape change not covered by a guard is rejected by the equations is not decided.",
 		Rule: "one obligation per guard of the hand-confirmed table (DESIGN appendix A.4); the same comparison made at several sites must be found at each"})
 	registerProp(&propDef{ID: "C17", Rules: withC06(rulesC17), Floor: 33,
 		Expl: "T2 field coverage generated from go/types: for every Goldilocks-typed leaf of variables.Proof (both coordinates of extension values) the canonical range check gl.Chip.RangeCheck is applied to the element itself on every path from VerifierChip.Verify, inside full-range loops over the complete field (no narrowing slice, no conditional, no early exit). That the canonical range check is a real check in every backend is C06 (included). Adding a Goldilocks field to the proof structure without extending the sweep is a violation by construction.",
 		Rule: "one obligation per leaf access path and coordinate (enumerated from the type), each discharged by a distinct call path"})
-	registerProp(&propDef{ID: "C14", Rules: withC06(func(cx *Ctx) []Obligation { return append(rulesC14(cx), rulesW3(cx, "C14")...) }), Floor: 16,
+	registerProp(&propDef{ID: "C14", Rules: withState("C14", withC06(func(cx *Ctx) []Obligation { return append(rulesC14(cx), rulesW3(cx, "C14")...) })), Floor: 18,
 		Expl: "From VerifierChip.Verify: an n-bit range check executes on every path on the value stored in FriChallenges.FriPowResponse of the derived challenges, with width expression 64 − <FRI config>.ProofOfWorkBits, and that value depends on the proof's PowWitness; the width check is live in every backend (C06 obligations) and constant widths are aligned (W3). The transcript order (witness observed before the response is squeezed) is C11's obligation. The arithmetic 'width w ⇔ ≥ 64−w leading zeros of a canonical 64-bit value' is argued in DESIGN.md, not checked.",
 		Rule: "one obligation per clause"})
-	registerProp(&propDef{ID: "C12", Rules: func(cx *Ctx) []Obligation { return append(rulesC12(cx), rulesC10(cx)...) }, Floor: 7,
+	registerProp(&propDef{ID: "C12", Rules: withState("C12", func(cx *Ctx) []Obligation { return append(rulesC12(cx), rulesC10(cx)...) }), Floor: 9,
 		Expl: "From VerifierChip.Verify: per query round (loop covering every round, co-indexed by a refusal guard) and per tree, an equality executes on every path between a digest that depends on the opened leaf (both coordinates of all evaluations for commit-phase trees), on every sibling (full-range hashing loop) and on the query-index bits, and a cap entry selected by four bits from the top CapHeight bits of the same decomposition; initial tree t is compared against caps[t] in the order [ConstantSigmasCap, WiresCap, PlonkZsPartialProductsCap, QuotientPolysCap]. Plus C10's structural clauses (the leaf is hashed through an injective, non-wrapping limb packing). Left/right ordering and the lookup arithmetic are pinned by the positive tests and not claimed.",
 		Rule: "one obligation per tree family, index provenance, caps order, packing accumulator"})
-	registerProp(&propDef{ID: "C13", Rules: rulesC13, Floor: 7,
+	registerProp(&propDef{ID: "C13", Rules: withState("C13", rulesC13), Floor: 9,
 		Expl: "Presence and coverage only: per round and step the two coordinate equalities between the bit-selected claimed evaluation and the running evaluation; after the steps the two equalities against the final polynomial at the folded point; the invertibility assertions; coverage of all rounds. The domain point, combination and interpolation formulas are not decided.",
 		Rule: "one obligation per equality coordinate / assertion / loop coverage"})
-	registerProp(&propDef{ID: "C16", Rules: func(cx *Ctx) []Obligation {
+	registerProp(&propDef{ID: "C16", Rules: withState("C16", func(cx *Ctx) []Obligation {
 		return append(append(rulesC16(cx), rulesConfigCoverage(cx, "C16/O16.3")...), ruleC16Windows(cx)...)
-	}, Floor: 6,
+	}), Floor: 8,
 		Expl: "Presence and coverage only: for every challenge round (full-range loop, count = Config.NumChallenges) an extension equality (both coordinates) between the vanishing value (depending on gates, wires, sigmas, Z, Z(next), partial products, public-input hash, challenges) and Z_H·quotient (from QuotientPolys via ReduceWithPowers); the L₀ division asserts existence. The formula is not decided.",
 		Rule: "one obligation per coordinate and assertion"})
 	registerProp(&propDef{ID: "C05", Rules: withC06(func(cx *Ctx) []Obligation {
